@@ -2,6 +2,7 @@ import EupsModel.Lemmas.CondCorrect
 import EupsModel.Lemmas.CondLex
 import EupsModel.Model.CondPinned
 import EupsModel.Lemmas.TableBlocks
+import EupsModel.Lemmas.TableText
 /-! C11 — table files mean what they say.  Property theorems only: the specification side is in
 `Spec/C11.lean`, the models in `Model/{Cond,CondPinned,TableParse}.lean`, the lemmas in `Lemmas/Cond*.lean`. -/
 namespace EupsModel.C11
@@ -154,11 +155,49 @@ theorem C11_blocks (env : Env) (hfl : flavorOK env.flavor = true) (pdir : Option
   simp only [tableActions, parse, hrw, Res.bind, readLines_classified repaired pdir lines _ _ hcl]
   exact blocks_lines hfl t hok
 
-/-! ### non-vacuity and the reader as pinned (before the repairs of D4, D31) -/
+/-- **C11_blocks (text).**  For every table *text* made of if / else-if / else chains written with any layout —
+indentation, spelling of `if`/`else` in any letter case, blanks around parentheses and braces, a trailing comment
+on any line of the block structure, conditions in any written form — around arbitrary other lines (each any text
+that, once stripped, is empty or is passed on by `_rewrite` and classified by the patterns of `_read` as the action
+it stands for, or as nothing), with or without a final newline:
+`Table(text, product).actions(flavor, types)` is what the table denotes. -/
+theorem C11_blocks_text (env : Env) (hfl : flavorOK env.flavor = true) (pdir : Option Str) (t : List TItemT)
+    (hok : t.all (TItemT.ok pdir) = true) (nl : Bool) :
+    tableActions repaired pdir env (tableText t nl) = .ok (denoteTable env (tableAbs t)) := by
+  obtain ⟨lines, hrw, hcl⟩ := rewrite_table t hok nl
+  exact C11_blocks env hfl pdir _ lines _ (tableAbs_ok t hok) hrw hcl
+
+/-! ### non-vacuity of `C11_blocks_text` -/
 
 def envLinux : Env := ⟨Str.ofString "Linux", [Str.ofString "build"]⟩
-def condLinux : CExpr := .atom ⟨Str.ofString "FLAVOR", .flavor, false, Str.ofString "Linux", none, [], [32], [32]⟩
 def actA : Action := ⟨Str.ofString "envSet", [Str.ofString "A", Str.ofString "1"], .none⟩
+def actB : Action := ⟨Str.ofString "envSet", [Str.ofString "B", Str.ofString "x y"], .none⟩
+def condBuild : CExpr := .atom ⟨Str.ofString "TYPE", .type, false, Str.ofString "build", none, [], [32], [32]⟩
+
+/-- a table text with layout: upper-case `IF`, `Else if`, `}else{`, comments after block lines, an empty branch,
+an unknown command, a quoted argument -/
+def sampleTable : List TItemT :=
+  [ .line ⟨Str.ofString "# a table", none⟩,
+    .chain
+      ⟨⟨Str.ofString "  ", Str.ofString "# only there"⟩, ⟨Str.ofString "IF", [32], [32], [32, 32, 32]⟩,
+        .atom ⟨Str.ofString "FLAVOR", .flavor, false, Str.ofString "Linux", none, [32], [32], [32]⟩, [32],
+        [⟨Str.ofString "\tenvSet(A, 1)", some actA⟩]⟩
+      [(⟨[32], Str.ofString "Else", [32]⟩, ⟨⟨Str.ofString "  ", []⟩, ⟨Str.ofString "if", [32], [], []⟩, condBuild, [], []⟩)]
+      (some ⟨⟨Str.ofString "  ", Str.ofString "# otherwise"⟩, ⟨[], Str.ofString "else", []⟩, [32],
+        [⟨Str.ofString "      frobnicate(x)", none⟩, ⟨Str.ofString "      envSet(B, \"x y\")  # comment", some actB⟩]⟩)
+      ⟨Str.ofString "  ", []⟩ [] ]
+
+example : tableText sampleTable true = Str.ofString
+    "# a table\n  IF ( FLAVOR == Linux ) {   # only there\n\tenvSet(A, 1)\n  } Else if (TYPE == build){\n  }else{ # otherwise\n      frobnicate(x)\n      envSet(B, \"x y\")  # comment\n  }\n" := by
+  decide +kernel
+example : sampleTable.all (TItemT.ok none) = true := by decide +kernel
+example : denoteTable envLinux (tableAbs sampleTable) = [actA] ∧
+    denoteTable ⟨Str.ofString "Darwin", [Str.ofString "build"]⟩ (tableAbs sampleTable) = [] ∧
+    denoteTable ⟨Str.ofString "Darwin", []⟩ (tableAbs sampleTable) = [actB] := by decide +kernel
+
+/-! ### non-vacuity and the reader as pinned (before the repairs of D4, D31) -/
+
+def condLinux : CExpr := .atom ⟨Str.ofString "FLAVOR", .flavor, false, Str.ofString "Linux", none, [], [32], [32]⟩
 /-- `if (FLAVOR == Linux) { } else { envSet(A, 1) }` — the shape `expandTableFile` writes for an empty exact block -/
 def emptyIfTable : List TItem := [.chain ⟨condLinux, [], []⟩ [] (some [some actA]) true]
 def emptyIfText : Str := Str.ofString "if (FLAVOR == Linux) {\n} else {  # otherwise\n  envSet(A, 1)\n}\n"
